@@ -4,10 +4,10 @@
 WT=$1; M=$2; TESTS=$3
 cd $WT && git checkout -q -- . || exit 9
 SAN=""
-g++ -std=c++17 -O1 -w $SAN -I$WT $M/demo.cpp $WT/tlx/die/core.cpp -o /tmp/w/demo_orig -lpthread 2>/tmp/w/demo_err || { echo "demo does not compile on original: $(head -3 /tmp/w/demo_err)"; }
+g++ -std=c++17 -O1 -w $SAN -I$WT $M/demo.cpp $WT/tlx/die/core.cpp $EXTRA_SRC -o /tmp/w/demo_orig -lpthread 2>/tmp/w/demo_err || { echo "demo does not compile on original: $(head -3 /tmp/w/demo_err)"; }
 /tmp/w/demo_orig > /dev/null 2>&1; r0=$?
 git apply $M/patch.diff || { echo "patch does not apply"; exit 9; }
-g++ -std=c++17 -O1 -w $SAN -I$WT $M/demo.cpp $WT/tlx/die/core.cpp -o /tmp/w/demo_mut -lpthread 2>/dev/null
+g++ -std=c++17 -O1 -w $SAN -I$WT $M/demo.cpp $WT/tlx/die/core.cpp $EXTRA_SRC -o /tmp/w/demo_mut -lpthread 2>/dev/null
 timeout 60 /tmp/w/demo_mut > /dev/null 2>&1; r1=$?
 tr="ok"
 for t in $TESTS; do
